@@ -672,7 +672,7 @@ def run_C20(ctx):
     ctx['cov']['boundary_texts'] = len(texts)
 
 def proj_lex(op, out):
-    return out if first_word(op) == 'lex' else None
+    return out if first_word(op) in ('lex', 'lexx') else None
 
 def run_C18(ctx):
     rng = Rng(ctx['seed'] * 86028121 + 18)
@@ -681,6 +681,19 @@ def run_C18(ctx):
     for i in range(0, len(texts), 10000):
         e = {}
         correspondence(ctx, [streams.sess_c18(texts[i:i + 10000], e)], proj_lex, streams.oracle_c18(e), 'C18 tokenization', 'lex')
+    # the full alphabet (NUL bytes inside the data) and the scanner-mode part: directives that expand to no file
+    # (custom include function) must leave the scanner in its normal mode
+    def fnx(impl, r, stats):
+        impl.do('init')
+        frag = streams.C18_FRAG
+        for k in range(300 if ctx['tier'] == 'quick' else 20000):
+            t = b''.join(r.choice(frag + [b'\x00', b'\x00', b' ', b'\n', b'"', b'/*', b'*/', b'#', b'@include "', b'\\']) for _ in range(r.range(1, 8)))
+            impl.do('lexx 0 ' + hexs(t)); stats['c18:lexx-nul'] = stats.get('c18:lexx-nul', 0) + 1
+        for path in (b'', b'?', b'?x', b'!', b'!boom'):
+            for tail in (b'\na = 1;\n', b' b = "s"; c = 2;\n', b'\n@include ""\nz = 0x1;\n', b'x "y" z\n'):
+                for head in (b'', b'q = 1;\n', b'  '):
+                    impl.do('lexx 1 ' + hexs(head + b'@include "' + path + b'"' + tail)); stats['c18:lexx-include'] = stats.get('c18:lexx-include', 0) + 1
+    correspondence(ctx, [fnx], proj_lex, None, 'C18 tokenization', 'lex-full-alphabet')
 
 def run_C13(ctx):
     expect = {}
